@@ -389,6 +389,39 @@ NewEv(e) ==
      !.lastev = [op |-> e.op, ret |-> e.ret]]
 
 (* ------------------------- next -------------------------------------------- *)
+(* ------------------------- read-only observers: exports, Debug, v_print, inspect ---------- *)
+\* The harness parsed the text back into facts: nodes (in printed order), edges <<v, label, to>>, data <<v, bytes>>.
+EdgeList(g) == UNION {{<<v, g.edges[v][i][1], g.edges[v][i][2]>> : i \in 1..Len(g.edges[v])} : v \in g.present}
+Once(seq, x) == Cardinality({i \in DOMAIN seq : seq[i] = x}) = 1
+FactsOk(e, g) ==
+  /\ e.wellformed
+  /\ e.nodes = SetToSeq(g.present)                                    \* one node per present vertex, ascending, none else
+  /\ Len(e.edges) = Cardinality(EdgeList(g)) /\ \A x \in EdgeList(g) : Once(e.edges, x)
+  /\ Len(e.data) = Cardinality({v \in g.present : g.st[v] # "empty"})
+  /\ \A v \in g.present : g.st[v] # "empty" => Once(e.data, <<v, g.val[v]>>)
+ExportEv(e) ==
+  LET g == gs[e.h]
+      p == IF e.op \in {"xml", "dot"} THEN "C18" ELSE "C20" IN
+  IF void \/ div \/ IsNull(g) THEN Voided
+  ELSE [Cur EXCEPT !.fails = fails
+          \cup (IF FactsOk(e, g) THEN {} ELSE {F(e, p, e.op \o ": the printed vertices, edges or data are not exactly those of the graph")})
+          \cup (IF e.stable THEN {} ELSE {F(e, p, e.op \o ": two graphs with the same vertices, edges and data print differently")})]
+VPrintEv(e) ==
+  LET g == gs[e.h] IN
+  IF void \/ div \/ IsNull(g) \/ e.v \notin g.present THEN Voided
+  ELSE [Cur EXCEPT !.fails = fails
+          \cup (IF e.wellformed /\ (e.marker <=> g.st[e.v] # "empty") THEN {} ELSE {F(e, "C20", "v_print: data marker wrong")})
+          \cup (IF e.wellformed /\ ToSet(e.labels) = LabelsOf(g, e.v) /\ Len(e.labels) = Len(g.edges[e.v]) THEN {}
+                 ELSE {F(e, "C20", "v_print: labels are not exactly those of the vertex")})]
+InspectEv(e) ==
+  LET g == gs[e.h]
+      R == Reach(g, e.v, AllP)
+      want == UNION {{<<u, g.edges[u][i][1], g.edges[u][i][2]>> : i \in 1..Len(g.edges[u])} : u \in R} IN
+  IF void \/ div \/ IsNull(g) \/ e.v \notin g.present \/ ~(R \subseteq g.present) THEN Voided
+  ELSE [Cur EXCEPT !.fails = fails
+          \cup (IF e.wellformed /\ Len(e.edges) = Cardinality(want) /\ \A x \in want : Once(e.edges, x) THEN {}
+                 ELSE {F(e, "C20", "inspect: does not list every reachable edge exactly once (or failed / did not parse)")})]
+
 Judge(e) ==
   CASE e.op = "reset" -> Reset(e)
     [] e.op = "end" -> End(e)
@@ -397,6 +430,9 @@ Judge(e) ==
     [] e.op = "slice" -> SliceEv(e)
     [] e.op = "merge" -> MergeEv(e)
     [] e.op = "new" -> NewEv(e)
+    [] e.op \in {"xml", "dot", "debug", "display"} -> ExportEv(e)
+    [] e.op = "vprint" -> VPrintEv(e)
+    [] e.op = "inspect" -> InspectEv(e)
 
 TNext ==
   /\ l <= Len(Rec)
